@@ -231,6 +231,10 @@ def norm(node):
         return ('(' + inner + (',' if len(node.elts) == 1 else '') + ')') if isinstance(node, ast.Tuple) else '[' + inner + ']'
     if isinstance(node, ast.BoolOp) and isinstance(node.op, (ast.And, ast.Or)):
         return _bool_norm(type(node.op), node.values)
+    if isinstance(node, ast.Call) and isinstance(node.func, ast.Name) and node.func.id == 'len' and len(node.args) == 1 and not node.keywords \
+            and isinstance(node.args[0], ast.Call) and isinstance(node.args[0].func, ast.Name) and node.args[0].func.id == 'range' \
+            and len(node.args[0].args) == 1 and not node.args[0].keywords:
+        return norm(node.args[0].args[0])       # len(range(n)) is n for the non-negative counts this code base passes
     if isinstance(node, ast.Call):
         return f'{norm(node.func)}({",".join([norm(a) for a in node.args] + sorted(f"{k.arg}={norm(k.value)}" for k in node.keywords))})'
     if isinstance(node, ast.Subscript) and not isinstance(node.slice, ast.Slice):
@@ -523,26 +527,29 @@ def _always_exits(block):
     return False
 
 
-def path(node, stop):
+def path(node, stop, inline_in=None):
     """The condition under which `node` is reached from the start of `stop` (a function, loop or other enclosing node), as
     a formula: enclosing if/elif tests with their polarity, and the negation of every earlier sibling `if` whose branch
     always leaves (return / raise / continue / break)."""
     conj = []
+
+    def P(t):
+        return prop(inline(inline_in, t)) if inline_in is not None else prop(t)
     child = node
     p = getattr(node, '_parent', None)
     while p is not None and child is not stop:
         if isinstance(p, ast.If):
             if child in p.body:
-                conj.append(prop(p.test))
+                conj.append(P(p.test))
             elif child in p.orelse:
-                conj.append(('not', prop(p.test)))
+                conj.append(('not', P(p.test)))
         elif isinstance(p, ast.IfExp):
             if child is p.body:
-                conj.append(prop(p.test))
+                conj.append(P(p.test))
             elif child is p.orelse:
-                conj.append(('not', prop(p.test)))
+                conj.append(('not', P(p.test)))
         elif isinstance(p, ast.While) and p is not stop and child in p.body:
-            conj.append(prop(p.test))
+            conj.append(P(p.test))
         for fld in ('body', 'orelse', 'finalbody'):
             lst = getattr(p, fld, None)
             if isinstance(lst, list) and child in lst:
@@ -550,9 +557,9 @@ def path(node, stop):
                     if isinstance(s, ast.If):
                         b, o = _always_exits(s.body), _always_exits(s.orelse)
                         if b and not o:
-                            conj.append(('not', prop(s.test)))
+                            conj.append(('not', P(s.test)))
                         elif o and not b:
-                            conj.append(prop(s.test))
+                            conj.append(P(s.test))
         child = p
         p = getattr(p, '_parent', None)
     return ('and', conj)
